@@ -17,6 +17,8 @@ func seqSpecsFor(id, tier string) []*SeqSpec {
 		return []*SeqSpec{specC06(tier), specC06glob(tier)}
 	case "C10":
 		return []*SeqSpec{specC10(tier, 0), specC10(tier, 1), specC10(tier, 2)}
+	case "C15":
+		return []*SeqSpec{specC15hello(tier)}
 	}
 	if sp := seqSpecFor(id, tier); sp != nil {
 		return []*SeqSpec{sp}
@@ -58,11 +60,97 @@ func seqSpecFor(id, tier string) *SeqSpec {
 	return nil
 }
 
-var levelOf = map[string]string{}
+// exploreGroups: schedule-exploration parts of a property (group name -> preemption bounds per tier)
+type exploreGroup struct {
+	name           string
+	quick, thorough int
+}
+
+func exploreGroupsFor(id string) []exploreGroup {
+	switch id {
+	case "C08":
+		return []exploreGroup{{"lin", 2, 3}, {"tx", 2, 3}}
+	case "C09":
+		return []exploreGroup{{"tx", 2, 3}}
+	}
+	return exploreGroupsExtra(id)
+}
+
+// exploreScenarios returns the scenario list of a (property, group); parent and workers build
+// the identical list.
+func exploreScenarios(id, group, tier string) []*Scenario {
+	switch id + "/" + group {
+	case "C08/lin":
+		return linScenarios(tier)
+	case "C08/tx", "C09/tx":
+		return txScenarios(tier)
+	}
+	return exploreScenariosExtra(id, group, tier)
+}
+
+var assumptions = map[string][]string{
+	"seq": {
+		"the reference model transcribes Redis 7 command semantics from the command reference (no Redis server is available offline)",
+		"values outside the stated alphabet and sequences longer than depth_completed are not covered",
+		"error replies are compared by class (first word), not by message text",
+	},
+	"explore": {
+		"scheduling points are the synchronisation operations (lock, atomic, channel, select, sleep, timer, socket); plain memory accesses between them are covered by the race check C16",
+		"schedules with more preemptions than the reported bound are not covered",
+	},
+	"C17": {"element names are chosen with the dictionary's own hash function so that single insertions / deletions double or halve the table mid-iteration", "at most m mutations per iteration (m in the evidence), tables of 16..128 buckets"},
+	"C15": {"the canonical down-conversion is: map / list of pairs -> flat array, set -> array, double / big number / verbatim -> string, boolean -> 0/1, null -> nil", "unordered collections are compared as multisets"},
+}
+
+func runCheck(id, tier string) int {
+	redisemu.VInit()
+	level := "model_checking"
+	if l, ok := levelOverride[id]; ok {
+		level = l
+	}
+	rep := newReport(id, tier, level)
+	ran := false
+	if id == "C17" {
+		rep.Assume = append(rep.Assume, assumptions["C17"]...)
+		runScanCheck(tier, rep)
+		ran = true
+	}
+	if id == "C15" {
+		rep.Assume = append(rep.Assume, assumptions["C15"]...)
+		runC15(tier, rep)
+		ran = true
+	}
+	if sps := seqSpecsFor(id, tier); sps != nil {
+		rep.Assume = append(rep.Assume, assumptions["seq"]...)
+		for _, sp := range sps {
+			runSeqCheck(sp, tier, rep)
+		}
+		ran = true
+	}
+	if gs := exploreGroupsFor(id); gs != nil {
+		rep.Assume = append(rep.Assume, assumptions["explore"]...)
+		for _, g := range gs {
+			bound := g.quick
+			if tier == "thorough" {
+				bound = g.thorough
+			}
+			runExplore(id, g.name, exploreScenarios(id, g.name, tier), bound, tier, rep)
+		}
+		ran = true
+	}
+	if runExtra(id, tier, rep) {
+		ran = true
+	}
+	if !ran {
+		fmt.Fprintln(os.Stderr, "unknown property", id)
+		return 2
+	}
+	return rep.finish()
+}
 
 func main() {
 	if len(os.Args) < 2 {
-		fmt.Fprintln(os.Stderr, "usage: mc check <ID> [--tier quick|thorough] | worker <ID> <tier> | replay <file>")
+		fmt.Fprintln(os.Stderr, "usage: mc check <ID> [--tier quick|thorough] | replay <file> | do CMD...")
 		os.Exit(2)
 	}
 	switch os.Args[1] {
@@ -96,6 +184,9 @@ func main() {
 	case "scanworker":
 		scanWorker(os.Args[2])
 		return
+	case "exploreworker":
+		exploreWorker(exploreScenarios(os.Args[2], os.Args[3], os.Args[4]))
+		return
 	case "worker":
 		id, tier := os.Args[2], os.Args[3]
 		if sp := seqSpecFor(id, tier); sp != nil {
@@ -103,41 +194,25 @@ func main() {
 			return
 		}
 		os.Exit(2)
+	case "replay":
+		os.Exit(runReplay(os.Args[2:]))
 	case "check":
 		fs := flag.NewFlagSet("check", flag.ExitOnError)
-		tier := fs.String("tier", "quick", "quick|thorough")
+		tier := fs.String("tier", "", "quick|thorough")
 		id := os.Args[2]
 		fs.Parse(os.Args[3:])
-		if t := os.Getenv("VERIF_TIER"); t != "" && len(os.Args) <= 3 {
-			*tier = t
+		if *tier == "" {
+			*tier = os.Getenv("VERIF_TIER")
 		}
-		redisemu.VInit()
-		if id == "C17" {
-			rep := newReport(id, *tier, "model_checking")
-			rep.Assume = []string{"element names are chosen with the dictionary's own hash function so that single insertions / deletions double or halve the table mid-iteration", "at most m mutations per iteration (m in the evidence), tables of 16..128 buckets"}
-			runScanCheck(*tier, rep)
-			os.Exit(rep.finish())
+		if *tier != "thorough" {
+			*tier = "quick"
 		}
-		if id == "C15" {
-			rep := newReport(id, *tier, "model_checking")
-			rep.Assume = []string{"the canonical down-conversion is: map / list of pairs -> flat array, set -> array, double / big number / verbatim -> string, boolean -> 0/1, null -> nil", "unordered collections are compared as multisets"}
-			runC15(*tier, rep)
-			runSeqCheck(specC15hello(*tier), *tier, rep)
-			os.Exit(rep.finish())
+		os.Exit(runCheck(id, *tier))
+	default:
+		if extraCommand(os.Args[1:]) {
+			return
 		}
-		if sps := seqSpecsFor(id, *tier); sps != nil {
-			rep := newReport(id, *tier, "model_checking")
-			rep.Assume = []string{
-				"the reference model transcribes Redis 7 command semantics from the command reference (no Redis server is available offline)",
-				"values outside the stated alphabet and sequences longer than depth_completed are not covered",
-				"error replies are compared by class (first word), not by message text",
-			}
-			for _, sp := range sps {
-				runSeqCheck(sp, *tier, rep)
-			}
-			os.Exit(rep.finish())
-		}
-		fmt.Fprintln(os.Stderr, "unknown property", id)
+		fmt.Fprintln(os.Stderr, "unknown command", os.Args[1])
 		os.Exit(2)
 	}
 }
